@@ -1264,3 +1264,156 @@ pub fn scen_proof(m: &Model, setup: &Setup, kind: u8, opt: Option<&OptSpec>, dir
     out.meta(format!("proof kind={} steps={} lits={}", kind, steps.len(), nlits));
     out.push(format!("drcp {} {} {}{} :: {}", kind, obj_desc, nlits, lit_txt, steps.join(" ; ")));
 }
+
+// ---------------------------------------------------------------------------------------------
+// propagation correspondence (`fix` records): the domains of all model variables at every decision
+// point, observed through the brancher interface, against Model/Propagation.lean's fixpoint
+// ---------------------------------------------------------------------------------------------
+
+#[derive(Default)]
+pub struct FixLog {
+    pub lines: Vec<String>,
+    pub pending: Option<(String, String)>,
+    pub learned: bool,
+    pub first: bool,
+    pub steps: usize,
+    pub conflicts: usize,
+}
+
+pub struct FixRecorder {
+    pub inner: BoxB,
+    pub ids: Vec<pumpkin_solver::variables::DomainId>,
+    pub decl: Vec<Vec<i32>>,
+    pub log: std::rc::Rc<RefCell<FixLog>>,
+    pub max_lines: usize,
+}
+
+impl std::fmt::Debug for FixRecorder {
+    fn fmt(&self, f: &mut std::fmt::Formatter<'_>) -> std::fmt::Result {
+        f.debug_struct("FixRecorder").finish()
+    }
+}
+
+impl FixRecorder {
+    fn snapshot(&self, context: &pumpkin_solver::branching::SelectionContext) -> String {
+        let mut s = format!("{}", self.ids.len());
+        for (d, vals) in self.ids.iter().zip(self.decl.iter()) {
+            let cur: Vec<String> = vals.iter().filter(|v| context.contains(*d, **v)).map(|v| v.to_string()).collect();
+            s.push_str(&format!(" {} {}", cur.len(), cur.join(" ")));
+        }
+        s.replace("  ", " ")
+    }
+}
+
+impl pumpkin_solver::branching::Brancher for FixRecorder {
+    fn next_decision(&mut self, context: &mut pumpkin_solver::branching::SelectionContext) -> Option<Predicate> {
+        let now = self.snapshot(context);
+        {
+            let mut log = self.log.borrow_mut();
+            if log.first {
+                log.first = false;
+                log.lines.push(format!("fix root ok {}", now));
+            } else if let Some((before, dec)) = log.pending.take() {
+                if log.lines.len() < self.max_lines {
+                    let l = log.learned as u8;
+                    log.lines.push(format!("fix step {} {}{} ok {}", l, before, dec, now));
+                    log.steps += 1;
+                }
+            }
+        }
+        let d = self.inner.next_decision(context);
+        let mut log = self.log.borrow_mut();
+        log.pending = None;
+        if let Some(p) = d {
+            let id = p.get_domain().id as usize;
+            if id >= 1 && id <= self.ids.len() {
+                let mut a = String::new();
+                atom_of(p).emit(&mut a);
+                log.pending = Some((now, a));
+            }
+        }
+        d
+    }
+    fn on_conflict(&mut self) {
+        {
+            let mut log = self.log.borrow_mut();
+            if let Some((before, dec)) = log.pending.take() {
+                if log.lines.len() < self.max_lines {
+                    let l = log.learned as u8;
+                    log.lines.push(format!("fix step {} {}{} conflict", l, before, dec));
+                    log.conflicts += 1;
+                }
+            }
+            log.learned = true;
+        }
+        self.inner.on_conflict()
+    }
+    fn on_backtrack(&mut self) {
+        self.log.borrow_mut().pending = None;
+        self.inner.on_backtrack()
+    }
+    fn on_restart(&mut self) {
+        self.log.borrow_mut().pending = None;
+        self.inner.on_restart()
+    }
+    fn on_solution(&mut self, s: SolutionReference) {
+        self.inner.on_solution(s)
+    }
+    fn on_unassign_integer(&mut self, v: pumpkin_solver::variables::DomainId, x: i32) {
+        self.inner.on_unassign_integer(v, x)
+    }
+    fn on_appearance_in_conflict_predicate(&mut self, p: Predicate) {
+        self.inner.on_appearance_in_conflict_predicate(p)
+    }
+    fn synchronise(&mut self, a: &pumpkin_solver::verif_hooks::Assignments) {
+        self.inner.synchronise(a)
+    }
+    fn is_restart_pointless(&mut self) -> bool {
+        self.inner.is_restart_pointless()
+    }
+    fn subscribe_to_events(&self) -> Vec<pumpkin_solver::branching::BrancherEvent> {
+        use pumpkin_solver::branching::BrancherEvent::*;
+        // the recorder needs conflicts, backtracks and restarts whatever the wrapped brancher asks for
+        let mut ev = self.inner.subscribe_to_events();
+        for e in [Conflict, Backtrack, Restart] {
+            if !ev.contains(&e) {
+                ev.push(e);
+            }
+        }
+        ev
+    }
+}
+
+pub fn scen_fix(m: &Model, setup: &Setup, solves: usize, out: &mut Out) {
+    let solver = Solver::with_options(setup.opts.to_solver_options());
+    let mut built = build(solver, m, false, false, setup.style_seed);
+    out.push(format!("model {}", m.emit()));
+    if let Some(i) = built.failed_at {
+        out.meta(format!("posterr at={} kind={}", i, m.cons[i].full_kind()));
+        out.push("fix root conflict");
+        return;
+    }
+    let decl: Vec<Vec<i32>> = m.vars.iter().map(|d| d.values.clone()).collect();
+    let log = std::rc::Rc::new(RefCell::new(FixLog { first: true, ..Default::default() }));
+    for k in 0..solves {
+        let inner = make_brancher(&setup.bspec, &built.solver, &built.vars.ids);
+        let mut brancher = FixRecorder { inner, ids: built.vars.ids.clone(), decl: decl.clone(), log: log.clone(), max_lines: 80 * (k + 1) };
+        let mut term = StopAt::never();
+        let res = built.solver.satisfy(&mut brancher, &mut term);
+        let verdict = match res {
+            SatisfactionResult::Satisfiable(_) => "sat",
+            SatisfactionResult::Unsatisfiable => "unsat",
+            SatisfactionResult::Unknown => "unknown",
+        };
+        out.meta(format!("fix solve {} -> {}", k, verdict));
+        log.borrow_mut().pending = None;
+        if verdict != "sat" {
+            break;
+        }
+    }
+    let log = log.borrow();
+    for l in &log.lines {
+        out.push(l.clone());
+    }
+    out.meta(format!("fix steps={} conflicts={} learned={}", log.steps, log.conflicts, log.learned));
+}
